@@ -24,6 +24,22 @@ CHECKS = {
         "percent-encoding or non-UTF-8 bytes in the alphabet; wsgiref's request parsing is outside the check.",
         "DESIGN.md section 5 C17",
     ),
+    "C15": (
+        "vmc/c15.py (E2 explicit-state BFS + E3 preemption-bounded scheduler, vmc/sched.py)",
+        "model_checking",
+        "explicit-state BFS to a fixpoint over the real config object (3 virtual threads via the get_ident seam) + stateless "
+        "preemption-bounded exploration of real threads with sys.monitoring line events",
+        "(a) breadth-first search to a fixpoint over (virtual thread, operation) transitions executed on the real "
+        "_SQLLineageConfigLoader object: open scope with 9 keyword sets (valid, falsy, coercing, unknown, mixed), close, close by "
+        "exception, direct assignment, environment flips; in every state every key is read from every thread and compared with a "
+        "reference stack model. The fixpoint covers programs of any length and every interleaving at operation granularity. "
+        "(b) real threads under a baton scheduler with every line of config.py as a scheduling point: every pair of small programs, "
+        "every schedule up to the stated preemption bound; each thread must observe exactly its own reference trace, and a thread "
+        "re-using either identifier afterwards must read environment/default values.",
+        "Trusted: the reference stack semantics written from the property text; GIL atomicity below line granularity; "
+        "thread identity reuse modelled through the get_ident seam. The model is the real object (no separate model to conform).",
+        "DESIGN.md section 5 C15",
+    ),
 }
 
 NOT_YET = "check not built yet in this revision (planned in DESIGN.md section 5/11); not claimed"
